@@ -101,10 +101,12 @@ CHECKS = {
        "C05_deleting (minimize/around/balanced keep any frame), C05_collapse (collapse-brace with ANY tiling splitter: raw write and re-split "
        "candidate keep the frame), C05_loaded / C05_loaded_char (a loaded marker file is framed by the marker lines; char mode also "
        "protects the byte before the DDEND line), and the end-to-end corollaries C05_minimize/pairs/collapse_loaded: Coq theorems for "
-       "every verdict function, input and splitter. replace-* and the experimental move are covered by C05_generic under the monitored "
-       "assumption that their candidates never change before/after (their real candidates are replayed through the model driver). Tie: "
+       "every verdict function, input and splitter. replace-properties-by-globals: C05_replace_properties / _loaded / _candidate_shape over its "
+       "CONCRETE pass (ReplaceProps.v) - no assumption left. replace-arguments and the experimental move are covered by C05_generic under "
+       "the monitored assumption that their candidates never change before/after (their real candidates are replayed through the model "
+       "driver). Tie: "
        "trace correspondence over marker files x 7 strategies (+move) x 5 splitters with a prefix/suffix oracle.",
-  note=TB + "Partial for replace-properties / replace-arguments / move: 'candidates keep before/after' is monitored on the implementation, not proved.",
+  note=TB + "Partial for replace-arguments / move: 'candidates keep before/after' is monitored on the implementation, not proved.",
   tech="Coq proof (frame invariant of the driver loop + per-strategy frame preservation) + trace correspondence",
   ref="4/C05"),
  "C06": dict(
